@@ -277,7 +277,17 @@ def run_plan(pid, tier, seed, extra_cov=None, t0=None):
             def commit(w):
                 beh.extend([dict(a="Begin", s=1, chain=[], res="Ok"), dict(a="Finish", s=1, f=1, w=dict(NCH, **w)),
                             dict(a=rng.choice(["Commit", "TryCommit"]), f=1, res="Ok")])
-            if ci % 2 == 0:
+            if ci % 3 == 2:
+                # runs of keys sharing more than 200 bits, the runs far apart: one branch node holds prefix-compressed
+                # separators followed by separators stored in full
+                a, b, c = rng.sample(keys, 3)
+                commit({a: "v1", b: "v1", c: "v1"})
+                commit({a: "v2", c: "Nil"})
+                commit({b: "Nil", c: "v1"})
+                store, conc = api.concretise(beh, consts, rng, f=rng.choice([400, 600]), emb=rng.choice(["ctop", "ctop:z"]), vt="tiny",
+                                             store=dict(commit_concurrency=rng.choice([1, 2])))
+                conc["vtable"] = {"v1": "1000", "v2": "inline-max", "v3": "tiny"}
+            elif ci % 2 == 0:
                 # the family that exposed the branch-node separator corruption (push_chunk with prefix lengths
                 # more than 57 bits apart): the lowest group is deleted while a higher one moves from inline to
                 # overflow values, 400 members each, 127 shared bits
